@@ -103,6 +103,30 @@ class Region:
                     break
                 self.inlined.append(cands[0][1].name)
                 cur = inline_call(cur, cands[0][0], cands[0][1])
+        self._finish(cur)
+
+    def inline_calls(self, pred, max_n=4):
+        """inline (in place) calls inside the per-line region to crate-local helpers whose body satisfies `pred`
+        (e.g. "reads Args.filter"): the rule that asks for it then sees one control-flow graph"""
+        for _ in range(max_n):
+            cand = None
+            for bb in sorted(self.blocks):
+                t = self.proc.blocks[bb]["term"]
+                if t["k"] != "call" or not t["callee"].get("local"):
+                    continue
+                cb = self.facts.bodies.get(callee_name(t))
+                if cb is None or cb.name.split("::")[-1] in GATE_FNS or cb.name == self.proc.name:
+                    continue
+                if pred(cb):
+                    cand = (bb, cb)
+                    break
+            if cand is None:
+                return self
+            self.inlined.append(cand[1].name)
+            self._finish(inline_call(self.proc, cand[0], cand[1]))
+        return self
+
+    def _finish(self, cur):
         self.proc = cur
         self.cfg = CFG(self.proc)
         gm_bb = _calls_to(self.proc, "get_message")[0][0]
